@@ -90,12 +90,19 @@ class BaseElementLocator
 
     void resize(std::size_t new_size, std::byte* memory_begin) noexcept
     {
-        last_element_ = element_address(new_size, memory_begin);
-        element_addresses_.resize_from_capacity(new_size);
+        if (new_size < element_addresses_.size())
+        {
+            last_element_ = element_address(new_size, memory_begin);
+            element_addresses_.resize_from_capacity(new_size);
+        }
     }
 
     void move_elements_forward(std::size_t from, std::size_t to, std::byte* memory_begin) noexcept
     {
+        if (from == element_addresses_.size())
+        {
+            return;
+        }
         const auto diff = detail::move_elements(from, to, memory_begin, *this);
         std::transform(element_addresses_.begin() + from, element_addresses_.end(), element_addresses_.begin() + to,
                        [&](auto address)
